@@ -45,6 +45,7 @@ def spec_for(tlevels):
         spec.append(('i%d' % i, 'int', None))
     for n in ('n0', 'n1', 'f0', 'f1'):
         spec.append((n, 'str', 'len(%s) <= 2' % n))
+    spec.append(('prep', 'bool', None))
     return spec, nc
 
 
@@ -78,6 +79,11 @@ def make_body(l1, l2, hist, info):
             s2 = runify(r1, r2, s)
         except Cyclic:
             return ch.HOLDS_TRIVIAL
+        # 'prepared' unifications: the generators are created first (all variables still unbound) and started only
+        # after the history bindings were made; a generator's body runs when it is started, so the outcome is the same
+        prepared = None
+        if hist and vals[2 * nc + 4]:
+            prepared = [iter(unify(t1, t2)), iter(unify(t2, t1))]
         # real: open the history
         opened = []
         for a, ra, b, rb in hterms:
@@ -91,10 +97,10 @@ def make_body(l1, l2, hist, info):
         names = {}
         before = [show(v, names) for v in vs]
         outcomes = []
-        for x, y in ((t1, t2), (t2, t1)):
+        for oi, (x, y) in enumerate(((t1, t2), (t2, t1))):
             n = 0
             obs = None
-            for _ in unify(x, y):
+            for _ in (prepared[oi] if prepared is not None else unify(x, y)):
                 n += 1
                 names = {}
                 obs = (show(t1, names), show(t2, names), [show(v, names) for v in vs])
@@ -161,6 +167,15 @@ def units(tier, seed):
         add('a.h1.v0=v1.F2-F2.small', [['F2'], SMALL], [['F2'], SMALL], [([['v0']], [['v1']])],
             {'k0': 0, 'k1': 0, 'k2': 0, 'k5': 0}, 200)
     else:
+        # depth 2 on one side (both orders are covered by the symmetry check inside the obligation)
+        MID = ['v0', 'v1', 'int', 'A', 'F1']
+        LOW = ['v0', 'v1', 'int']
+        for c in INNER:
+            for c2 in INNER:
+                add('a.%s-deep-%s.small' % (c, c2), [[c], MID, LOW], [[c2], SMALL], [], {'k0': 0, 'k7': 0}, 1500)
+        for c in INNER:
+            add('a.h2.%s-leaf' % c, [[c], SMALL], [LEAVES], [([['v0']], [['v1', 'F1'], ['v2', 'int']]), ([['v1', 'v2']], [['int', 'A', 'F1'], ['v0', 'int']])],
+                {}, 1500)
         for c in INNER:
             add('a.%s-leaf' % c, [[c], LEAVES], [LEAVES], [], {'k0': 0}, 200)
             for c2 in INNER:
